@@ -34,7 +34,7 @@ TEXT = {
          "Total silence, silence ending 1 ms before the first deadline, answers at drawn times of the second period (incl. T-1ms) and steady traffic for up to 300 periods; TestRequest and disconnect instants are checked against exact windows on the fake clock.",
          "T = N + max(1, N/20) with N chosen so that integer and real division agree."),
  "C10": ("exploration", "wire log of first transmissions as reference model; generated ResendRequest ranges and Logon sequence gaps",
-         "After a mixed outbound history (optionally ending with the library's own TestRequest outstanding, optionally with a neighbour session on the shared store) the peer requests ranges of 9 shapes; retransmissions must equal the recorded first transmissions in the obligatory cases and never leave the range otherwise; Logon gaps must produce a ResendRequest from the first missing number.",
+         "After a mixed outbound history (optionally ending with the library's own TestRequest outstanding, optionally with a neighbour session on the shared store) the peer requests ranges of 9 shapes; retransmissions must equal the recorded first transmissions in the obligatory cases and never leave the range otherwise; Logon gaps (expected number written by hand or counted up by a real earlier session over the same stores) must produce a usable ResendRequest from the first missing number.",
          "requests are settled at one simulated instant so no timer traffic intervenes."),
  "C11": ("exploration", "hostile peer: grammar-mutated and raw byte strings through the real stream, ServeIncoming and the decoder API; no panic, no hang",
          "Byte strings with recomputed framing fields (group-count anomalies, nested counts, prefix/suffix tags, 60 KB values), damaged framing, degenerate strings and random bytes reach the decoder through three entry points with an application that decodes every inbound message; any recovered panic in any task is a violation; a step/wall watchdog bounds every run.",
